@@ -253,6 +253,10 @@ def run_case(case):
                                    combos=sub_combos, verbosity=0)
                 str(crop), crop.num_results, crop.missing_results()
                 crop.is_ready_to_reap()
+                if case["decoy_sow"] == "reload":
+                    # the real sow is done by somebody who only knows the
+                    # crop's name and directory (farmer unpickled from it)
+                    crop = x.Crop(name="c6", parent_dir=main)
             if farmer_kind == "sampler":
                 np.random.seed(case["np_seed"])
                 crop.sow_samples(case["n"], verbosity=0)
@@ -279,7 +283,11 @@ def run_case(case):
                 order.append(i)
         with under_test("grow"):
             for i in order:
-                crop.grow(i)
+                if case.get("grow_workers"):
+                    # what a cluster array task with num_workers does
+                    x.grow(i, crop=crop, num_workers=2, verbosity=0)
+                else:
+                    crop.grow(i)
             crop.grow_missing()
         between = None
         if farmer_kind == "harvester" and case.get("between") and \
@@ -457,8 +465,11 @@ def strategy(draw):
             "reload_before_grow": draw(st.booleans()),
             "reload_before_reap": draw(st.booleans()),
             "dname": draw(st.sampled_from(["data.h5", "data", "res.dmp"])),
-            "decoy_sow": draw(st.sampled_from([False, False, True])),
-            "init_full": draw(st.sampled_from([False, True]))}
+            "decoy_sow": draw(st.sampled_from([False, False, True,
+                                               "reload"])),
+            "init_full": draw(st.sampled_from([False, True])),
+            "grow_workers": draw(st.sampled_from([False, False, False,
+                                                  True]))}
     if case["dname"].endswith(".dmp"):
         case["engine"] = "joblib"
     if farmer == "sampler":
